@@ -323,6 +323,57 @@ fn decode_family(ctx: &Ctx, report: &mut Report) {
         }
         report.evaluations += 1;
     }
+    // what a frame may inflate to: well-formed compressed frames around the 8 MiB bound, through
+    // `decompress` and through the production frame decoder (a valid snappy stream of zero bytes is
+    // a few hundred KB on the wire, far below every protocol's frame limit)
+    {
+        use tokio_util::codec::{Decoder, Encoder, length_delimited::LengthDelimitedCodec};
+        const LIMIT: usize = 8 << 20;
+        for n in [LIMIT - 1, LIMIT, LIMIT + 1, LIMIT + 4096, 2 * LIMIT, 5 * LIMIT] {
+            let payload = Bytes::from(vec![0u8; n]);
+            let frame = compress(payload.clone());
+            report.evaluations += 1;
+            let label = json!({"family": "decompress", "inflates_to": n, "frame_bytes": frame.len()});
+            match std::panic::catch_unwind(|| decompress(BytesMut::from(&frame[..]))) {
+                Err(_) => report.violation("decompress-panic", format!("decompress panicked on a well-formed frame inflating to {n} bytes"), label.clone()),
+                Ok(Ok(out)) => {
+                    if out.len() > LIMIT {
+                        report.violation("decompress-oversize", format!("decompress turned a {}-byte frame into a {}-byte message (the bound is {LIMIT})", frame.len(), out.len()), label.clone());
+                    } else if out.as_ref() != payload.as_ref() {
+                        report.violation("compress-roundtrip", format!("a frame inflating to {n} bytes does not round-trip"), label.clone());
+                    } else {
+                        report.nontrivial.insert(fp(&("inflate", n)));
+                    }
+                }
+                Ok(Err(_)) => {
+                    if n <= LIMIT {
+                        report.violation("decompress-refuses-within-bound", format!("a well-formed frame inflating to {n} bytes (within the {LIMIT}-byte bound) is refused"), label.clone());
+                    }
+                }
+            }
+            // the production decoder: a length-delimited frame carrying the same compressed payload
+            let mut codec = ckb_network::compress::LengthDelimitedCodecWithCompress::new(true, LengthDelimitedCodec::builder().max_frame_length(4 << 20).new_codec(), 100usize.into());
+            let mut wire = BytesMut::new();
+            // (the encoder compresses; a payload beyond what an honest peer sends is encoded all the same)
+            if codec.encode(payload.clone(), &mut wire).is_err() {
+                continue;
+            }
+            report.evaluations += 1;
+            match std::panic::catch_unwind(std::panic::AssertUnwindSafe(|| codec.decode(&mut wire))) {
+                Err(_) => report.violation("decompress-panic", format!("the frame decoder panicked on a well-formed frame inflating to {n} bytes"), label.clone()),
+                Ok(Ok(Some(out))) => {
+                    if out.len() > LIMIT {
+                        report.violation("decompress-oversize", format!("the frame decoder turned a frame into a {}-byte message (the bound is {LIMIT})", out.len()), label.clone());
+                    }
+                }
+                Ok(Ok(None)) | Ok(Err(_)) => {
+                    if n <= LIMIT {
+                        report.violation("decompress-refuses-within-bound", format!("the frame decoder refuses a well-formed frame inflating to {n} bytes"), label.clone());
+                    }
+                }
+            }
+        }
+    }
     report.sample(json!({"family": "decode", "seed_messages": msgs.iter().map(|m| format!("{} ({} B)", m.0, m.1.len())).collect::<Vec<_>>()}));
 }
 
